@@ -26,6 +26,13 @@ fn files_from_args(args: &[String]) -> Vec<String> {
 fn cexpr(e: &Expr) -> Result<String, String> {
   match e {
     Expr::Paren(p) => cexpr(&p.expr),
+    Expr::Binary(b) if matches!(b.op, syn::BinOp::Eq(_)) && toks(&b.left) == "content_type_str" => {
+      // a shape the generator does not emit today; read it so that a changed check can still be evaluated
+      let Expr::Lit(syn::ExprLit { lit: syn::Lit::Str(s), .. }) = &*b.right else {
+        return Err(format!("rhs in {}", toks(e)));
+      };
+      Ok(format!("(CEq \"{}\")", s.value()))
+    }
     Expr::Binary(b) => {
       let l = cexpr(&b.left)?;
       let r = cexpr(&b.right)?;
@@ -625,6 +632,21 @@ fn skel(ts: proc_macro2::TokenStream, erase_ident: bool, out: &mut String, lits:
       if p.as_char() == ',' && i + 1 == toks.len() {
         i += 1;
         continue;
+      }
+      // closure body: `|| { expr }` and `|| expr` are the same closure
+      if p.as_char() == '|' {
+        if let Some(TokenTree::Group(g)) = toks.get(i + 1) {
+          if g.delimiter() == proc_macro2::Delimiter::Brace {
+            let inner: Vec<TokenTree> = g.stream().into_iter().collect();
+            let has_semi = inner.iter().any(|t| matches!(t, TokenTree::Punct(q) if q.as_char() == ';'));
+            if !has_semi && !inner.is_empty() {
+              out.push('|');
+              skel(g.stream(), erase_ident, out, lits);
+              i += 2;
+              continue;
+            }
+          }
+        }
       }
       if p.as_char() == '>' && i > 0 {
         if let (Some(TokenTree::Punct(prev)), Some(TokenTree::Group(g))) = (toks.get(i - 1), toks.get(i + 1)) {
